@@ -18,7 +18,7 @@ let read_common t =
   let _spec = next_int t in
   let ins = next_list t (fun t ->
     let c = next_bool t in let a = next_int t in let v = next_int t in let k = next_int t in
-    let iv = next_int t in let it = next_int t in let ib = next_bool t in
+    let iv = next_int t in let it = next_int t in let ib = (next_int t = 1) in
     { s_conf = c; s_asset = a; s_value = v; s_iss = k; s_issv = iv; s_isst = it; s_issb = ib }) in
   let outs = next_list t (fun t ->
     let a = next_int t in let v = next_int t in let b = next_bool t in let bi = next_int t in let f = next_bool t in
@@ -128,7 +128,8 @@ let cmd_bvh t =
 let cmd_bv0 t =
   let (ins, outs) = read_common t in
   let sel = next_list t next_n in
-  let keys = next_bool t in
+  let km = next_int t in
+  let keys = km >= 1 in let tokkey = km <> 2 in
   let _ctor = next_int t in
   let opens = Stdlib.List.map (fun _ -> let a = next_hex t in let v = next_hex t in (a, v)) ins in
   if next t <> "|" then failwith "format";
@@ -140,7 +141,7 @@ let cmd_bv0 t =
       bi0_isst = z_of_int (if i.s_iss = 1 then i.s_isst else 0) }) ins opens in
   let mouts = Stdlib.List.map (fun o ->
     { bo0_asset = n_of_int o.q_asset; bo0_value = z_of_int o.q_value; bo0_noscript = o.q_fee }) outs in
-  match b0_blind mins mouts sel keys sok rng with
+  match b0_blind mins mouts sel keys tokkey sok rng with
   | BErr -> print_endline "res=err"
   | BPanic -> print_endline "res=panic"
   | BOk r ->
